@@ -265,6 +265,13 @@ static void spont_fn(void *c)
 {
 	struct crec *v = c;
 
+	if (v->registered && sx_opt("spontkill", 0)) {
+		/* the owner signals its child on its own while the reaping thread may be collecting that child */
+		sx_cover("wait.spontaneous-kill");
+		sx_note("op:wait_interest_kill", v->id);
+		iv_wait_interest_kill(v->wi, SIGTERM);
+		return;
+	}
 	if (v->registered) {
 		sx_cover("wait.spontaneous-unregister");
 		do_unregister(v);
